@@ -172,6 +172,29 @@ let dispatch name =
   | "default_obj" -> let rat = rbool () in let bs = rlist rbasis in
     pobj (if rat then Exec.q_default_obj_rat bs else Exec.q_default_obj bs)
   | "bounding_box" -> let o = robj () in plist (fun (a, b) -> pq a; pq b) (Exec.q_obj_bounding_box o)
+  | "loft" -> let tol = rq () in let vol = rbool () in let os = rlist robj in let dist = rqlist () in
+    pres pobj (if vol then Exec.q_vloft tol os dist else Exec.q_loft tol os dist)
+  | "volume_interpolate" -> let tol = rq () in let bu = rbasis () in let bv = rbasis () in let bw = rbasis () in
+    let us = rqlist () in let vs = rqlist () in let ws = rqlist () in let x = rlist rqlist in
+    pres (fun o -> plist pqlist o.Obj.o_cps) (Exec.q_volume_interpolate tol bu bv bw us vs ws x)
+  | "surface_lsq" -> let tol = rq () in let bu = rbasis () in let bv = rbasis () in let us = rqlist () in let vs = rqlist () in
+    let x = rlist rqlist in pres (fun o -> plist pqlist o.Obj.o_cps) (Exec.q_surface_lsq tol bu bv us vs x)
+  | "volume_lsq" -> let tol = rq () in let bu = rbasis () in let bv = rbasis () in let bw = rbasis () in
+    let us = rqlist () in let vs = rqlist () in let ws = rqlist () in let x = rlist rqlist in
+    pres (fun o -> plist pqlist o.Obj.o_cps) (Exec.q_volume_lsq tol bu bv bw us vs ws x)
+  | "cubic_periodic" -> let tol = rq () in let t = rqlist () in let x = rlist rqlist in
+    pres pobj (Exec.q_cubic_periodic tol t x)
+  | "model_faces" -> let r3 () = let a = rnat () in let b = rnat () in let c = rnat () in ((a, b), c) in
+    let shA = r3 () in let stA = rnat () in let dA = rnat () in let sA = rbool () in
+    let shB = r3 () in let stB = rnat () in let dB = rnat () in let sB = rbool () in
+    let sw = rbool () in let f0 = rbool () in let f1 = rbool () in
+    let g = { Faces2.g_shA = shA; g_startA = stA; g_dA = dA; g_sideA = sA; g_shB = shB; g_startB = stB; g_dB = dB; g_sideB = sB;
+              g_swap = sw; g_flip0 = f0; g_flip1 = f1 } in
+    let p3 ((i, j), k) = pnat i; pnat j; pnat k in
+    pbool (Exec.x_conform g);
+    plist (fun (f : Faces.face) -> p3 f.Faces.fn0; p3 f.Faces.fn1; p3 f.Faces.fn2; p3 f.Faces.fn3; pnat f.Faces.owner;
+                                    (match f.Faces.neighbor with Some n -> pint (int_of_nat n) | None -> pint (-1)))
+      (Exec.x_model_faces g)
   | "curve_interpolate" -> let tol = rq () in let b = rbasis () in let ts = rqlist () in let x = rlist rqlist in
     pres (fun o -> plist pqlist o.Obj.o_cps) (Exec.q_curve_interpolate tol b ts x)
   | "curve_lsq" -> let tol = rq () in let b = rbasis () in let ts = rqlist () in let x = rlist rqlist in
